@@ -303,6 +303,38 @@ type Facts struct {
 	volatile map[*types.Var]bool
 	in       map[*cfg.Block]*State
 	visits   map[*cfg.Block]int
+
+	// MinLenAxiom, when set, returns a lower bound for the length of a
+	// sequence-valued expression that holds by an invariant established
+	// elsewhere (and the invariant's name), or 0.
+	MinLenAxiom func(e ast.Expr) (int, string)
+	// AssumeMinLen gives lengths assumed for parameters at function entry
+	// (a precondition the caller of the analysis verifies at the call sites).
+	AssumeMinLen map[*types.Var]int
+	// UsedAxioms collects the names of the invariants that were needed.
+	UsedAxioms map[string]bool
+}
+
+func (fa *Facts) axiomMinLen(e ast.Expr) (int, string) {
+	if fa.MinLenAxiom == nil {
+		return 0, ""
+	}
+	return fa.MinLenAxiom(ast.Unparen(e))
+}
+
+// withAxiom returns st extended by the invariant on len(x), if there is one.
+func (fa *Facts) withAxiom(x ast.Expr, st *State) (*State, string) {
+	k, name := fa.axiomMinLen(x)
+	if k <= 0 || st == nil {
+		return st, ""
+	}
+	ln, ok, _ := fa.seqLen(x)
+	if !ok || ln.Term == "" {
+		return st, ""
+	}
+	st2 := st.clone()
+	st2.addLinLE(Lin{Off: k}, ln, 0)
+	return st2, name
 }
 
 // Canon returns a canonical string for a side-effect-free expression and
@@ -587,3 +619,21 @@ func stripPos(s string) string {
 
 // StripPos removes the @offset disambiguators from canonical strings.
 func StripPos(s string) string { return stripPos(s) }
+
+// CloneState and JoinStates expose state copying/joining to rule code.
+func CloneState(s *State) *State {
+	if s == nil {
+		return nil
+	}
+	return s.clone()
+}
+
+func JoinStates(a, b *State) *State {
+	if a == nil {
+		return CloneState(b)
+	}
+	if b == nil {
+		return a
+	}
+	return join(a, b)
+}
